@@ -114,6 +114,31 @@ class Holder:
 
 
 @dataclass(eq=False)
+class Strip:
+    """persisted through StripMapped, which builds mapped helper objects on the fly (they are held by nothing else)"""
+
+    values: List[int] = field(default_factory=list)
+
+
+@dataclass(eq=False)
+class StripMapped(AlternativeMapping[Strip]):
+    cells: List[Leaf] = field(default_factory=list)
+
+    @classmethod
+    def create_instance(cls, obj: Strip):
+        return cls([Leaf(v) for v in obj.values])
+
+    def create_from_dao(self) -> Strip:
+        return Strip([c.v for c in self.cells])
+
+
+@dataclass(eq=False)
+class Album:
+    number: int = 12
+    strips: List[Strip] = field(default_factory=list)
+
+
+@dataclass(eq=False)
 class Rich:
     """scalars of every supported kind"""
 
@@ -131,5 +156,5 @@ class Rich:
     owner: Optional[Node] = None
 
 
-CLASSES = [Leaf, SubLeaf, SubSubLeaf, DeepLeaf, Vec, Node, SubNode, Rich, Bag, LabeledBag, Holder]
-ALTERNATIVE_MAPPINGS = [VecMapped, BagMapped]
+CLASSES = [Leaf, SubLeaf, SubSubLeaf, DeepLeaf, Vec, Node, SubNode, Rich, Bag, LabeledBag, Holder, Strip, Album]
+ALTERNATIVE_MAPPINGS = [VecMapped, BagMapped, StripMapped]
